@@ -769,11 +769,6 @@ fn spec_patch_source(g: PatchGeo, px: usize, py: usize) -> Option<(usize, usize)
     Some((bx as usize, by as usize))
 }
 
-const CW: usize = 4; // canvas buffer
-const CH: usize = 3;
-const RW: usize = 4; // reference buffer
-const RH: usize = 3;
-
 #[derive(Clone, Copy, PartialEq, Eq)]
 enum SourceRect {
     /// the source rectangle lies in the reference's buffer: a valid stream on a wholly rendered reference frame
@@ -783,22 +778,26 @@ enum SourceRect {
     AnywhereOriginReference,
 }
 
-/// One colour channel, no extra channels, one target, non-alpha modes (kReplace / kAdd / kMul, symbolic). Canvas buffer
-/// 4x3 and reference buffer 4x3 at symbolic origins, every coordinate up to the frame size limit.
-fn patch_rectangle_contract(source: SourceRect, raw_mode: u8) {
+/// One colour channel, no extra channels, one target, a non-alpha mode. Canvas buffer CW x CH and reference buffer RW x RH
+/// at symbolic origins.
+fn patch_rectangle_contract<const CW: usize, const CH: usize, const RW: usize, const RH: usize>(source: SourceRect, raw_mode: u8, wide: bool) {
     let ih = image_header_with_extra([]);
-    let canvas_region = region_at(target_i32(), target_i32(), CW, CH);
+    // wide: every coordinate up to the frame size limit; otherwise a window of +-12 around the origin, which contains every
+    // relative position of the three rectangles (wholly outside on each side .. wholly inside) for these buffer sizes
+    let signed = || if wide { target_i32() } else { small_i32(-12, 12) };
+    let unsigned = || if wide { coord_u32() } else { small_i32(0, 16) as u32 };
+    let canvas_region = region_at(signed(), signed(), CW, CH);
     let ref_region = match source {
-        SourceRect::InsideReference => region_at(target_i32(), target_i32(), RW, RH),
+        SourceRect::InsideReference => region_at(signed(), signed(), RW, RH),
         SourceRect::AnywhereOriginReference => region_at(0, 0, RW, RH),
     };
-    let (x0, y0, pw, ph) = (coord_u32(), coord_u32(), coord_u32(), coord_u32());
+    let (x0, y0, pw, ph) = (unsigned(), unsigned(), unsigned(), unsigned());
     kani::assume(pw >= 1 && ph >= 1);
     if source == SourceRect::InsideReference {
         kani::assume(ref_region.left as i64 <= x0 as i64 && x0 as i64 + pw as i64 <= ref_region.left as i64 + RW as i64);
         kani::assume(ref_region.top as i64 <= y0 as i64 && y0 as i64 + ph as i64 <= ref_region.top as i64 + RH as i64);
     }
-    let (tx, ty) = (target_i32(), target_i32());
+    let (tx, ty) = (signed(), signed());
     let clamp: bool = kani::any();
 
     let old: [[[f32; CW]; CH]; 1] = finite_samples();
@@ -832,16 +831,200 @@ fn patch_rectangle_contract(source: SourceRect, raw_mode: u8) {
 
     let painted = src.is_some();
     let (cl, ct) = (canvas_region.left as i64, canvas_region.top as i64);
-    kani::cover!(painted && g.target.0 < cl && g.target.1 < ct); // clipped at the left / top edge of the canvas
-    kani::cover!(painted && g.target.0 + g.size.0 > cl + CW as i64 && g.target.1 + g.size.1 > ct + CH as i64); // clipped right / bottom
-    kani::cover!(painted && src == Some((RW - 1, RH - 1)) && px == 0 && py == 0);
-    kani::cover!(!painted && g.target.0 + g.size.0 <= cl); // target wholly left of the canvas
-    kani::cover!(!painted && g.target.1 >= ct + CH as i64); // wholly below
-    kani::cover!(!painted && g.target.0 + g.size.0 == cl + px as i64 && g.target.1 <= ct + py as i64 && ct + (py as i64) < g.target.1 + g.size.1); // kept sample right of a visible target
-    if source == SourceRect::AnywhereOriginReference {
-        kani::cover!(painted && g.src.0 + g.size.0 > RW as i64 + 5); // source rectangle reaches beyond the reference
-        kani::cover!(!painted && g.target.0 <= cl + px as i64 && cl + (px as i64) < g.target.0 + g.size.0 && g.target.1 <= ct + py as i64 && ct + (py as i64) < g.target.1 + g.size.1);
+    let under_target = g.target.0 <= cl + px as i64 && cl + (px as i64) < g.target.0 + g.size.0 && g.target.1 <= ct + py as i64 && ct + (py as i64) < g.target.1 + g.size.1;
+    kani::cover!(painted && g.target.0 < cl && g.target.1 < ct && src == Some((RW - 1, RH - 1))); // clipped at the left / top edge of the canvas
+    kani::cover!(painted && g.target.0 + g.size.0 > cl + CW as i64 && g.target.1 + g.size.1 > ct + CH as i64 && g.src.0 > ref_region.left as i64); // clipped right / bottom
+    kani::cover!(!painted && (g.target.0 + g.size.0 <= cl || g.target.1 >= ct + CH as i64)); // target wholly left of / below the canvas
+    kani::cover!(!painted && g.target.0 + g.size.0 == cl + px as i64 && g.target.1 <= ct + py as i64); // kept sample right of a visible target
+    // (AnywhereOriginReference only) a sample under the target whose source lies beyond the reference is kept
+    kani::cover!(source == SourceRect::InsideReference || (!painted && under_target && g.src.0 + g.size.0 > RW as i64 + 5));
+    std::mem::forget(r);
+    std::mem::forget(canvas);
+    std::mem::forget(reference);
+    std::mem::forget(patch_ref);
+}
+
+macro_rules! patch_rectangle_harness {
+    ($name:ident, $unwind:expr, $cw:expr, $ch:expr, $rw:expr, $rh:expr, $source:expr, $mode:expr, $wide:expr) => {
+        #[kani::proof]
+        #[kani::unwind($unwind)]
+        #[kani::stub(blend_single, blend_single_model)]
+        #[kani::stub(ImageBuffer::convert_to_float_modular, convert_float_only_model)]
+        fn $name() {
+            patch_rectangle_contract::<$cw, $ch, $rw, $rh>($source, $mode, $wide);
+        }
+    };
+}
+// quick: canvas 3x2, reference 2x2, coordinates in a +-12 window; wide: canvas 4x3, reference 4x3, every coordinate up to the
+// frame size limit
+patch_rectangle_harness!(patch_replace_rectangle, 4, 3, 2, 2, 2, SourceRect::InsideReference, 1, false);
+patch_rectangle_harness!(patch_add_rectangle, 4, 3, 2, 2, 2, SourceRect::InsideReference, 2, false);
+patch_rectangle_harness!(patch_replace_source_clipped, 4, 3, 2, 2, 2, SourceRect::AnywhereOriginReference, 1, false);
+patch_rectangle_harness!(patch_replace_rectangle_wide, 5, 4, 3, 4, 3, SourceRect::InsideReference, 1, true);
+patch_rectangle_harness!(patch_add_rectangle_wide, 5, 4, 3, 4, 3, SourceRect::InsideReference, 2, true);
+patch_rectangle_harness!(patch_mul_rectangle_wide, 5, 4, 3, 4, 3, SourceRect::InsideReference, 3, true);
+patch_rectangle_harness!(patch_add_source_clipped_wide, 5, 4, 3, 4, 3, SourceRect::AnywhereOriginReference, 2, true);
+
+// ---- several channels: which blending entry, which rectangle and which alpha planes each channel gets ----------------
+/// (raw patch blend mode 0..7, clamp, alpha_channel) of one blending entry
+type Entry = (u8, bool, u32);
+
+fn entry_of(e: Entry) -> BlendingModeInformation {
+    BlendingModeInformation { mode: patch_mode(e.0), alpha_channel: e.2, clamp: e.1 }
+}
+
+/// Expected sample of canvas channel `c` at buffer position (px, py) after ONE target: every operand is taken from the
+/// state before the target (`old`), the alpha operands from channel color_channels + alpha_channel of the two images.
+fn spec_patched_sample<const W: usize, const H: usize, const RW: usize, const RH: usize, const N: usize>(
+    color_channels: usize, ec_info: &[jxl_image::ExtraChannelInfo], entries: &[Entry], g: PatchGeo,
+    old: &[[[f32; W]; H]; N], refs: &[[[f32; RW]; RH]; N], c: usize, px: usize, py: usize,
+) -> f32 {
+    let entry = entries[if c < color_channels { 0 } else { 1 + (c - color_channels) }];
+    let uses_alpha = entry.0 >= 4;
+    let alpha_associated = if uses_alpha && !ec_info.is_empty() { Some(ec_info[entry.2 as usize].alpha_associated().unwrap_or(false)) } else { None };
+    let b = spec_patch_channel_blend(entry.0 as u32, entry.1, entry.2 as usize, c, color_channels, alpha_associated);
+    match spec_patch_source(g, px, py) {
+        None => old[c][py][px],
+        Some((sx, sy)) => {
+            let (old_alpha, new_alpha) = if b.uses_alpha {
+                let a = color_channels + entry.2 as usize;
+                (old[a][py][px], refs[a][sy][sx])
+            } else {
+                (0.0, 0.0)
+            };
+            spec_blend_pixel(b, old[c][py][px], old_alpha, refs[c][sy][sx], new_alpha)
+        }
     }
+}
+
+/// Non-alpha modes (kNone / kReplace / kAdd, symbolic per entry) on `CC` colour channels + E extra channels whose buffers
+/// cover DIFFERENT rectangles (symbolic origin per channel): every channel is blended by its own entry over its own rectangle.
+fn patch_channel_mapping_contract<const W: usize, const H: usize, const RW: usize, const RH: usize, const N: usize, const E: usize, const NB: usize>(color_channels: usize) {
+    assert!(N == color_channels + E && NB == E + 1);
+    let ec_info: [jxl_image::ExtraChannelInfo; E] = core::array::from_fn(|i| if i == 0 { alpha_channel_info(kani::any()) } else { depth_channel_info() });
+    let ih = image_header_with_extra(ec_info.clone());
+    let canvas_regions: [Region; N] = core::array::from_fn(|_| region_at(small_i32(-3, 3), small_i32(-3, 3), W, H));
+    let ref_regions: [Region; N] = core::array::from_fn(|_| region_at(0, 0, RW, RH));
+    let (x0, y0) = (small_i32(0, 1) as u32, small_i32(0, 1) as u32);
+    let (pw, ph) = (small_i32(1, 3) as u32, small_i32(1, 3) as u32);
+    let (tx, ty) = (small_i32(-5, 5), small_i32(-5, 5));
+    let entries: [Entry; NB] = core::array::from_fn(|_| (small_i32(0, 2) as u8, false, 0));
+
+    let old: [[[f32; W]; H]; N] = finite_samples();
+    let refs: [[[f32; RW]; RH]; N] = finite_samples();
+    let mut canvas = float_image(color_channels, &old, &canvas_regions);
+    let reference = float_image(color_channels, &refs, &ref_regions);
+    let mut infos = ManuallyDrop::new(entries.map(entry_of));
+    let mut targets = ManuallyDrop::new([PatchTarget { x: tx, y: ty, blending: stack_vec(&mut infos) }]);
+    let patch_ref = PatchRef { ref_idx: 0, x0, y0, width: pw, height: ph, patch_targets: stack_vec(&mut targets) };
+
+    let r = patch(&ih, &mut canvas, &reference, &patch_ref);
+    assert!(r.is_ok(), "[C05,C01] patch() on float buffers has no failure path");
+
+    let c = small_i32(0, N as i8 - 1) as usize;
+    let (px, py) = (small_i32(0, W as i8 - 1) as usize, small_i32(0, H as i8 - 1) as usize);
+    let g = PatchGeo { canvas: canvas_regions[c], reference: ref_regions[c], src: (x0 as i64, y0 as i64), size: (pw as i64, ph as i64), target: (tx as i64, ty as i64) };
+    let expect = spec_patched_sample(color_channels, &ec_info, &entries, g, &old, &refs, c, px, py);
+    assert!(same_f32(sample_of(&canvas, c, px, py), expect),
+        "[C05] every channel is blended by its own entry (colour channels: blending[0], extra channel i: blending[1 + i]) over its own rectangle; kNone and samples outside the target are kept");
+    assert!(canvas.regions_and_shifts()[c].0 == canvas_regions[c] && canvas.color_channels() == color_channels && canvas.channels() == N, "[C05] the canvas keeps its rectangles and channel list");
+
+    let painted = spec_patch_source(g, px, py).is_some();
+    let entry_of_c = entries[if c < color_channels { 0 } else { 1 + (c - color_channels) }].0;
+    kani::cover!(painted && c == N - 1 && entry_of_c == 2 && entries[0].0 == 1);
+    kani::cover!(painted && c == 0 && entry_of_c == 1 && entries[NB - 1].0 == 0);
+    kani::cover!(painted && c == color_channels && entry_of_c == 0 && entries[0].0 == 2);
+    kani::cover!(!painted && c == N - 1 && canvas_regions[c].left != canvas_regions[0].left && spec_patch_source(PatchGeo { canvas: canvas_regions[0], ..g }, px, py).is_some());
+    std::mem::forget(r);
+    std::mem::forget(canvas);
+    std::mem::forget(reference);
+    std::mem::forget(patch_ref);
+}
+
+/// grey + alpha + depth
+#[kani::proof]
+#[kani::unwind(4)]
+#[kani::stub(blend_single, blend_single_model)]
+#[kani::stub(ImageBuffer::convert_to_float_modular, convert_float_only_model)]
+fn patch_channel_mapping_gray() {
+    patch_channel_mapping_contract::<2, 2, 2, 2, 3, 2, 3>(1);
+}
+
+/// RGB + alpha
+#[kani::proof]
+#[kani::unwind(5)]
+#[kani::stub(blend_single, blend_single_model)]
+#[kani::stub(ImageBuffer::convert_to_float_modular, convert_float_only_model)]
+fn patch_channel_mapping_rgb() {
+    patch_channel_mapping_contract::<2, 1, 2, 1, 4, 1, 2>(3);
+}
+
+/// Alpha modes. Grey + [depth, ALPHA, depth]: an extra channel before and one after the alpha channel. The colour entry and the
+/// two depth entries are alpha modes (kBlendAbove / kBlendBelow / kMulAddAbove / kMulAddBelow, symbolic) naming the alpha
+/// channel; the alpha channel's own entry is ANY of the 8 modes when `alpha_entry_any`, else kNone (the alpha channel is kept).
+/// All channels share one rectangle. Alpha samples are 0 or 1 (the points where the formulas are exact in binary32, see
+/// "Arithmetic kernels"), the other samples |v| <= 2^40.
+fn patch_alpha_planes_contract<const W: usize, const H: usize>(alpha_entry_any: bool) {
+    const N: usize = 4;
+    const ALPHA: usize = 1; // index among the extra channels
+    let associated: bool = kani::any();
+    let ec_info = [depth_channel_info(), alpha_channel_info(associated), depth_channel_info()];
+    let ih = image_header_with_extra(ec_info.clone());
+    let canvas_region = region_at(small_i32(-2, 2), small_i32(-2, 2), W, H);
+    let ref_region = region_at(0, 0, W, H);
+    let (x0, y0) = (small_i32(0, 1) as u32, 0u32);
+    let (pw, ph) = (small_i32(1, 2) as u32, small_i32(1, 2) as u32);
+    let (tx, ty) = (small_i32(-3, 3), small_i32(-3, 3));
+    let alpha_mode = || (small_i32(4, 7) as u8, kani::any::<bool>(), ALPHA as u32);
+    let own = if alpha_entry_any { (small_i32(0, 7) as u8, kani::any::<bool>(), ALPHA as u32) } else { (0u8, false, ALPHA as u32) };
+    let entries: [Entry; 4] = [alpha_mode(), alpha_mode(), own, alpha_mode()];
+
+    let old: [[[f32; W]; H]; N] = finite_samples();
+    let refs: [[[f32; W]; H]; N] = finite_samples();
+    let mut c = 0;
+    while c < N {
+        let mut y = 0;
+        while y < H {
+            let mut x = 0;
+            while x < W {
+                if c == 1 + ALPHA {
+                    kani::assume((old[c][y][x] == 0.0 || old[c][y][x] == 1.0) && (refs[c][y][x] == 0.0 || refs[c][y][x] == 1.0));
+                } else {
+                    kani::assume(old[c][y][x].abs() <= 1_099_511_627_776.0 && refs[c][y][x].abs() <= 1_099_511_627_776.0);
+                }
+                x += 1;
+            }
+            y += 1;
+        }
+        c += 1;
+    }
+    let mut canvas = float_image(1, &old, &[canvas_region; N]);
+    let reference = float_image(1, &refs, &[ref_region; N]);
+    let mut infos = ManuallyDrop::new(entries.map(entry_of));
+    let mut targets = ManuallyDrop::new([PatchTarget { x: tx, y: ty, blending: stack_vec(&mut infos) }]);
+    let patch_ref = PatchRef { ref_idx: 0, x0, y0, width: pw, height: ph, patch_targets: stack_vec(&mut targets) };
+
+    let r = patch(&ih, &mut canvas, &reference, &patch_ref);
+    assert!(r.is_ok(), "[C05,C01] patch() on float buffers has no failure path");
+
+    let c = small_i32(0, N as i8 - 1) as usize;
+    let (px, py) = (small_i32(0, W as i8 - 1) as usize, small_i32(0, H as i8 - 1) as usize);
+    let g = PatchGeo { canvas: canvas_region, reference: ref_region, src: (x0 as i64, y0 as i64), size: (pw as i64, ph as i64), target: (tx as i64, ty as i64) };
+    let expect = spec_patched_sample(1, &ec_info, &entries, g, &old, &refs, c, px, py);
+    let got = sample_of(&canvas, c, px, py);
+    if c == 3 {
+        assert!(same_f32(got, expect),
+            "[C05] an extra channel AFTER the alpha channel is blended with the alpha of the canvas before the target was applied and the alpha of the patch at the source position");
+    } else {
+        assert!(same_f32(got, expect),
+            "[C05] colour channels, extra channels before the alpha channel and the alpha channel itself are blended with the alpha planes of the canvas (at the sample) and of the patch (at the source position)");
+    }
+    let painted = spec_patch_source(g, px, py).is_some();
+    kani::cover!(painted && c == 0 && entries[0].0 == 5 && old[2][py][px] == 1.0 && got != old[0][py][px]);
+    kani::cover!(painted && c == 1 && entries[1].0 == 6 && got != old[1][py][px]);
+    kani::cover!(painted && c == 3 && entries[3].0 == 4 && associated && got != old[3][py][px]);
+    kani::cover!(painted && c == 2 && got != old[2][py][px]);
+    kani::cover!(!painted && tx > canvas_region.left);
     std::mem::forget(r);
     std::mem::forget(canvas);
     std::mem::forget(reference);
@@ -852,14 +1035,139 @@ fn patch_rectangle_contract(source: SourceRect, raw_mode: u8) {
 #[kani::unwind(5)]
 #[kani::stub(blend_single, blend_single_model)]
 #[kani::stub(ImageBuffer::convert_to_float_modular, convert_float_only_model)]
-fn patch_rectangle() {
-    patch_rectangle_contract(SourceRect::InsideReference, 1);
+fn patch_alpha_planes_alpha_kept() {
+    patch_alpha_planes_contract::<2, 1>(false);
 }
 
 #[kani::proof]
 #[kani::unwind(5)]
 #[kani::stub(blend_single, blend_single_model)]
 #[kani::stub(ImageBuffer::convert_to_float_modular, convert_float_only_model)]
-fn patch_source_clipped() {
-    patch_rectangle_contract(SourceRect::AnywhereOriginReference, 1);
+fn patch_alpha_planes_alpha_blended() {
+    patch_alpha_planes_contract::<2, 1>(true);
+}
+
+/// Two targets of one PatchRef, kAdd (not idempotent): the second target is applied to the result of the first.
+#[kani::proof]
+#[kani::unwind(4)]
+#[kani::stub(blend_single, blend_single_model)]
+#[kani::stub(ImageBuffer::convert_to_float_modular, convert_float_only_model)]
+fn patch_two_targets() {
+    const W: usize = 3;
+    const H: usize = 2;
+    const RW: usize = 2;
+    const RH: usize = 2;
+    let ih = image_header_with_extra([]);
+    let canvas_region = region_at(small_i32(-2, 2), small_i32(-2, 2), W, H);
+    let ref_region = region_at(0, 0, RW, RH);
+    let (x0, y0) = (small_i32(0, 1) as u32, small_i32(0, 1) as u32);
+    let (pw, ph) = (small_i32(1, 2) as u32, small_i32(1, 2) as u32);
+    kani::assume(x0 + pw <= RW as u32 && y0 + ph <= RH as u32);
+    let t1 = (small_i32(-4, 5), small_i32(-4, 4));
+    let t2 = (small_i32(-4, 5), small_i32(-4, 4));
+    let old: [[[f32; W]; H]; 1] = finite_samples();
+    let refs: [[[f32; RW]; RH]; 1] = finite_samples();
+    let mut canvas = float_image(1, &old, &[canvas_region]);
+    let reference = float_image(1, &refs, &[ref_region]);
+    let mut infos1 = ManuallyDrop::new([entry_of((2, false, 0))]);
+    let mut infos2 = ManuallyDrop::new([entry_of((2, false, 0))]);
+    let mut targets = ManuallyDrop::new([
+        PatchTarget { x: t1.0, y: t1.1, blending: stack_vec(&mut infos1) },
+        PatchTarget { x: t2.0, y: t2.1, blending: stack_vec(&mut infos2) },
+    ]);
+    let patch_ref = PatchRef { ref_idx: 0, x0, y0, width: pw, height: ph, patch_targets: stack_vec(&mut targets) };
+    let r = patch(&ih, &mut canvas, &reference, &patch_ref);
+    assert!(r.is_ok(), "[C05,C01] patch() on float buffers has no failure path");
+
+    let (px, py) = (small_i32(0, W as i8 - 1) as usize, small_i32(0, H as i8 - 1) as usize);
+    let g1 = PatchGeo { canvas: canvas_region, reference: ref_region, src: (x0 as i64, y0 as i64), size: (pw as i64, ph as i64), target: (t1.0 as i64, t1.1 as i64) };
+    let g2 = PatchGeo { target: (t2.0 as i64, t2.1 as i64), ..g1 };
+    let after1 = match spec_patch_source(g1, px, py) {
+        Some((sx, sy)) => old[0][py][px] + refs[0][sy][sx],
+        None => old[0][py][px],
+    };
+    let after2 = match spec_patch_source(g2, px, py) {
+        Some((sx, sy)) => after1 + refs[0][sy][sx],
+        None => after1,
+    };
+    assert!(same_f32(sample_of(&canvas, 0, px, py), after2), "[C05] the targets of a patch are applied one after the other, each at its own position");
+    kani::cover!(spec_patch_source(g1, px, py).is_some() && spec_patch_source(g2, px, py).is_some() && t1 != t2);
+    kani::cover!(spec_patch_source(g1, px, py).is_some() && spec_patch_source(g2, px, py).is_none());
+    kani::cover!(spec_patch_source(g1, px, py).is_none() && spec_patch_source(g2, px, py).is_some());
+    std::mem::forget(r);
+    std::mem::forget(canvas);
+    std::mem::forget(reference);
+    std::mem::forget(patch_ref);
+}
+
+// ---- totality: everything Patches::parse lets through ---------------------------------------------------------------
+/// x0, y0, width, height ANY u32 (width, height >= 1), x, y ANY i32 (patch.rs:128-168 reads them as unchecked varints);
+/// canvas rectangle anywhere within the frame size limit, reference at the frame origin. kReplace, one channel.
+#[kani::proof]
+#[kani::unwind(3)]
+#[kani::stub(blend_single, blend_single_model)]
+#[kani::stub(ImageBuffer::convert_to_float_modular, convert_float_only_model)]
+fn patch_total_coordinates() {
+    const W: usize = 2;
+    const H: usize = 2;
+    let ih = image_header_with_extra([]);
+    let canvas_region = region_at(coord_i32(), coord_i32(), W, H);
+    let ref_region = region_at(0, 0, W, H);
+    let (x0, y0, pw, ph): (u32, u32, u32, u32) = (kani::any(), kani::any(), kani::any(), kani::any());
+    kani::assume(pw >= 1 && ph >= 1);
+    let (tx, ty): (i32, i32) = (kani::any(), kani::any());
+    let old: [[[f32; W]; H]; 1] = finite_samples();
+    let refs: [[[f32; W]; H]; 1] = finite_samples();
+    let mut canvas = float_image(1, &old, &[canvas_region]);
+    let reference = float_image(1, &refs, &[ref_region]);
+    let mut infos = ManuallyDrop::new([entry_of((1, false, 0))]);
+    let mut targets = ManuallyDrop::new([PatchTarget { x: tx, y: ty, blending: stack_vec(&mut infos) }]);
+    let patch_ref = PatchRef { ref_idx: 0, x0, y0, width: pw, height: ph, patch_targets: stack_vec(&mut targets) };
+    let r = patch(&ih, &mut canvas, &reference, &patch_ref);
+    assert!(r.is_ok(), "[C01] patch() on float buffers has no failure path");
+    // samples that are not under the target rectangle are kept, whatever the coordinates are
+    let (px, py) = (small_i32(0, W as i8 - 1) as usize, small_i32(0, H as i8 - 1) as usize);
+    let (x, y) = (canvas_region.left as i64 + px as i64, canvas_region.top as i64 + py as i64);
+    let under = tx as i64 <= x && x < tx as i64 + pw as i64 && ty as i64 <= y && y < ty as i64 + ph as i64;
+    if !under {
+        assert!(sample_of(&canvas, 0, px, py).to_bits() == old[0][py][px].to_bits(), "[C05] canvas samples outside the patch target are unchanged");
+    }
+    kani::cover!(under && sample_of(&canvas, 0, px, py).to_bits() != old[0][py][px].to_bits());
+    kani::cover!(!under);
+    std::mem::forget(r);
+    std::mem::forget(canvas);
+    std::mem::forget(reference);
+    std::mem::forget(patch_ref);
+}
+
+/// An alpha patch mode (4..7) on an image WITHOUT extra channels: Patches::parse accepts it (alpha_channel defaults to 0,
+/// patch.rs:165-169). There is no alpha, so kBlend* degenerates to kReplace and kMulAdd* to kAdd (spec/blend.rs).
+#[kani::proof]
+#[kani::unwind(3)]
+#[kani::stub(blend_single, blend_single_model)]
+#[kani::stub(ImageBuffer::convert_to_float_modular, convert_float_only_model)]
+fn patch_total_alpha_mode_without_extra_channels() {
+    const W: usize = 2;
+    const H: usize = 1;
+    let ih = image_header_with_extra([]);
+    let region = region_at(0, 0, W, H);
+    let old: [[[f32; W]; H]; 1] = finite_samples();
+    let refs: [[[f32; W]; H]; 1] = finite_samples();
+    let mut canvas = float_image(1, &old, &[region]);
+    let reference = float_image(1, &refs, &[region]);
+    let entry: Entry = (small_i32(4, 7) as u8, kani::any(), 0);
+    let mut infos = ManuallyDrop::new([entry_of(entry)]);
+    let mut targets = ManuallyDrop::new([PatchTarget { x: 0, y: 0, blending: stack_vec(&mut infos) }]);
+    let patch_ref = PatchRef { ref_idx: 0, x0: 0, y0: 0, width: 2, height: 1, patch_targets: stack_vec(&mut targets) };
+    let r = patch(&ih, &mut canvas, &reference, &patch_ref);
+    assert!(r.is_ok(), "[C01] patch() on float buffers has no failure path");
+    let px = small_i32(0, 1) as usize;
+    let g = PatchGeo { canvas: region, reference: region, src: (0, 0), size: (2, 1), target: (0, 0) };
+    let expect = spec_patched_sample(1, &[], &[entry], g, &old, &refs, 0, px, 0);
+    assert!(same_f32(sample_of(&canvas, 0, px, 0), expect), "[C05] without extra channels kBlend* acts as kReplace and kMulAdd* as kAdd");
+    kani::cover!(entry.0 == 6);
+    std::mem::forget(r);
+    std::mem::forget(canvas);
+    std::mem::forget(reference);
+    std::mem::forget(patch_ref);
 }
